@@ -119,6 +119,10 @@ type CaseResult struct {
 	Sample     any                 `json:"sample,omitempty"`
 	Violations []Violation         `json:"v,omitempty"`
 	Inconcl    []string            `json:"inconclusive,omitempty"`
+	// a case may consist of many sub-cases (e.g. every single fault of one batch): SubFPs are
+	// their fingerprints (each one distinct non-trivial sub-case), SubEvals their number
+	SubFPs   []string `json:"fps,omitempty"`
+	SubEvals int      `json:"n,omitempty"`
 }
 
 // Case is handed to the workload function of one case.
@@ -179,6 +183,19 @@ func (c *Case) Seen(set, member string) {
 func (c *Case) FP(parts ...string) {
 	c.mu.Lock()
 	c.fp = append(c.fp, parts...)
+	c.mu.Unlock()
+}
+
+// Sub records one executed sub-case of this case with its fingerprint.
+func (c *Case) Sub(fp string) { c.SubNT(fp, true) }
+
+// SubNT records one executed sub-case; its fingerprint counts only when it is non-trivial.
+func (c *Case) SubNT(fp string, nontrivial bool) {
+	c.mu.Lock()
+	c.res.SubEvals++
+	if nontrivial {
+		c.res.SubFPs = append(c.res.SubFPs, Hash8(c.Layer+"|"+fp))
+	}
 	c.mu.Unlock()
 }
 
